@@ -31,6 +31,12 @@ func fullOracle(prop string, snapshot bool) func(c *Case) Oracle {
 			return []Part{b, d, m}
 		})
 		if snapshot {
+			o.afterStep = func(e *Engine, st *StepRec) *Violation {
+				if st.Phase == "drop" || st.Phase == "close" || e.RouterClosed {
+					return nil
+				}
+				return structCheck(e, o.w, b, d, m, st)
+			}
 			o.onQuiesced = func(e *Engine) *Violation {
 				now := router.VerifSnapshot(e.R)
 				for uri, base := range e.Baseline {
@@ -88,6 +94,88 @@ func init() {
 	})
 }
 
+// structCheck compares the H1 table sizes with what the models say must exist
+// right now: state that outlives its reason (a refused call, an answered
+// invocation, a departed session) shows up as a difference at the next
+// quiescent point, not only after everybody has left.
+func structCheck(e *Engine, w *World, b *brokerPart, d *dealerPart, m *metaPart, st *StepRec) *Violation {
+	if len(d.greyReq) > 0 || w.st.Labels["protocol_violation_end"] > 0 && false {
+		return nil
+	}
+	now := router.VerifSnapshot(e.R)
+	for uri, base := range e.Baseline {
+		cur, ok := now[uri]
+		if !ok {
+			continue
+		}
+		realm := string(uri)
+		want := base
+		for _, s := range w.sess {
+			if s.realm == realm && s.live() {
+				want.Clients++
+			}
+		}
+		withSubs := map[int]bool{}
+		for _, sb := range b.subs {
+			if sb.realm != realm {
+				continue
+			}
+			want.Subscriptions++
+			switch sb.class {
+			case "prefix":
+				want.PfxSubs++
+			case "wildcard":
+				want.WcSubs++
+			default:
+				want.TopicSubs++
+			}
+			want.Subscribers += len(sb.members)
+			for x := range sb.members {
+				withSubs[x] = true
+			}
+		}
+		want.SessionSubIDSet += len(withSubs)
+		withRegs := map[int]bool{}
+		for _, r := range d.regs {
+			if r.realm != realm {
+				continue
+			}
+			want.Registrations++
+			switch r.class {
+			case "prefix":
+				want.PfxRegs++
+			case "wildcard":
+				want.WcRegs++
+			default:
+				want.ProcRegs++
+			}
+			want.Callees += len(r.members)
+			for _, x := range r.members {
+				withRegs[x] = true
+			}
+		}
+		want.CalleeRegIDSet += len(withRegs)
+		for _, c := range d.calls {
+			if w.sess[c.caller].realm == realm {
+				want.Calls++
+				want.Invocations++
+				want.InvocationByCall++
+			}
+		}
+		for s, ts := range m.testaments {
+			if len(ts) > 0 && w.sess[s].realm == realm && w.sess[s].live() {
+				want.Testaments++
+			}
+		}
+		want.HistoryEntries = cur.HistoryEntries
+		if cur != want {
+			return &Violation{Prop: w.prop, Step: st.N, Reason: fmt.Sprintf("realm %s: router tables differ from what the history justifies at this quiescent point:\n  router: %+v\n  model:  %+v", uri, cur, want)}
+		}
+	}
+	w.st.Label("struct_checks")
+	return nil
+}
+
 // ---- generator ---------------------------------------------------------------
 
 type mixGen struct {
@@ -95,7 +183,7 @@ type mixGen struct {
 	nsess   int
 	strict  bool
 	profile string
-	subs    map[int]int // guessed number of subscriptions per session
+	ps      *psGen
 	alive   []bool
 }
 
@@ -208,7 +296,7 @@ func (g *mixGen) testamentOp(t *rapid.T) Op {
 		return op
 	}
 	op := Op{K: "meta", S: s, URI: "wamp.session.add_testament"}
-	topic := genTopic(t)
+	topic := g.ps.topicFor(t)
 	op.Args = []V{VStr(topic), VList(genArgs(t, valOpts{})...), V{T: "dict", K: genKw(t, valOpts{})}}
 	if pct(t, 30, "scope") {
 		op.Kw = append(op.Kw, KV{"scope", VStr(pick(t, []string{"destroyed", "detached"}, "scopev"))})
@@ -246,7 +334,7 @@ func (g *mixGen) op(t *rapid.T) Op {
 		}
 		return op
 	case 1:
-		op := genPubSubOp(t, g.nsess, g.strict)
+		op := g.ps.op(t)
 		if op.K == "goodbye" || op.K == "drop" {
 			g.gone(op.S)
 		}
@@ -296,7 +384,7 @@ func genMixed(t *rapid.T, profile string) *Case {
 			callees = append(callees, i)
 		}
 	}
-	g := &mixGen{rpc: newRPCGen(n, strict, "C02", callers, callees), nsess: n, strict: strict, profile: profile, alive: make([]bool, n)}
+	g := &mixGen{rpc: newRPCGen(n, strict, "C02", callers, callees), nsess: n, strict: strict, profile: profile, alive: make([]bool, n), ps: &psGen{nsess: n, strict: strict}}
 	// observers
 	if profile == "C18" || pct(t, 30, "observer") {
 		if pct(t, 70, "exactobs") {
